@@ -86,6 +86,9 @@ func runC17(c *Ctx) error {
 						// a destination that has the same NAME as the forwarder topic (another broker, a second forwarder behind this one) is a destination
 						c17Msg{UUID: "u-samename", Payload: "p", Meta: metas[1], Env: "valid", Dest: "<fwd>"},
 						c17Msg{UUID: "u-nested", Payload: "p-nested", Meta: metas[1], Env: "nested", Dest: "dest-outer"},
+						// a message without any payload is no envelope either
+						c17Msg{UUID: "bad8", Payload: "", Meta: metas[1], Env: "plainjson"},
+						c17Msg{UUID: "u-mid3", Payload: "p", Meta: metas[0], Env: "valid", Dest: "dest-6"},
 						// control characters (the ones JSON has no short escape for) in the UUID, the metadata and the destination
 						c17Msg{UUID: "u-ctl \x1f\a\x7f", Payload: "p\x00", Meta: map[string]string{"k\x1f": "v\x00\v\x7f"}, Env: "valid", Dest: "dest-\x1f"})
 				}
@@ -300,6 +303,11 @@ func c17Run(r *tr.Run, cs c17Case) {
 				}
 				env := fwdCapture.Calls()[before].Msgs[0]
 				d.topic = fwdCapture.Calls()[before].Topic // (the topic the forwarder's Publisher really used)
+				if i%2 == 1 {
+					// metadata that the envelope message picked up on its way (outbox decorators, broker keys) is not the relayed message's
+					env.Metadata.Set("correlation_id", "the-envelope's-own")
+					env.Metadata.Set("trace-id", "added-on-the-way")
+				}
 				d.mk = func() *message.Message { return env.Copy() }
 			case "nested":
 				// the message handed to the Publisher is itself an envelope (chained forwarders, a relayed envelope): a message like any
